@@ -42,9 +42,29 @@ class Model:
                 out.append(name)
         return out
 
+    def untouched_defaults(self, fn):
+        """Parameters with a default that no call in the module ever passes (for a module-level function that is only called
+        directly): they are analysed with their default value."""
+        if self.facts.funcs.get(fn.name) is not fn:
+            return ()
+        a = fn.args
+        pos = [x.arg for x in getattr(a, 'posonlyargs', []) + a.args]
+        with_default = set(pos[len(pos) - len(a.defaults):]) | {x.arg for x, d in zip(a.kwonlyargs, a.kw_defaults) if d is not None}
+        if not with_default:
+            return ()
+        passed = set()
+        for n in ast.walk(self.facts.tree):
+            if isinstance(n, ast.Call) and isinstance(n.func, ast.Name) and n.func.id == fn.name:
+                if any(isinstance(x, ast.Starred) for x in n.args) or any(k.arg is None for k in n.keywords):
+                    return ()
+                passed |= set(pos[:len(n.args)]) | {k.arg for k in n.keywords}
+            elif isinstance(n, ast.Name) and n.id == fn.name and isinstance(n.ctx, ast.Load) and not (isinstance(getattr(n, '_parent', None), ast.Call) and n._parent.func is n):
+                return ()        # used as a value: it may be called with anything
+        return tuple(sorted(with_default - passed))
+
     def paths(self, fn, self_class=None):
         if id(fn) not in self._paths:
-            self._paths[id(fn)] = function_paths(self.facts, fn, self_class=self_class)[1]
+            self._paths[id(fn)] = function_paths(self.facts, fn, self_class=self_class, defaults=self.untouched_defaults(fn))[1]
         return self._paths[id(fn)]
 
     def method(self, cls, name):
@@ -97,18 +117,44 @@ def strip_res(v):
     return v
 
 
+def normalise(facts, v):
+    """Rewrite <Cls(args...)>.attr to the constructor argument stored in that attribute (a freshly built object's field is the value
+    it was built from), and drop result wrappers."""
+    if not isinstance(v, tuple) or not v:
+        return v
+    if v[0] == 'res':
+        return normalise(facts, v[3])
+    v = tuple(normalise(facts, x) if isinstance(x, tuple) else x for x in v)
+    if v[0] == 'attr' and isinstance(v[1], tuple) and v[1] and v[1][0] == 'new' and v[1][1] in facts.classes:
+        order = dict(facts.full_attr_order(v[1][1]))
+        param = order.get(v[2])
+        fields = ctor_fields(facts, v[1])
+        if param in fields:
+            return fields[param]
+    return v
+
+
 def is_pack_call(t):
-    """struct.pack(fmt, v) or struct.Struct(fmt).pack(v)"""
+    """struct.pack(fmt, v), struct.Struct(fmt).pack(v) or <a Struct object taken from a table>.pack(v)"""
     if t[0] == 'call' and t[1] == 'struct.pack':
         return True
-    return t[0] == 'mcall' and t[2] == 'pack' and strip_res(t[1])[0] == 'call' and strip_res(t[1])[1] == 'struct.Struct'
+    if t[0] == 'mcall' and t[2] == 'pack':
+        r = strip_res(t[1])
+        if r[0] == 'call' and r[1] == 'struct.Struct':
+            return True
+        # a method of a repo class named pack is not a struct packing; a subscripted / attribute value may be a Struct object
+        return r[0] in ('sub', 'unpack', 'ifexp') or (r[0] == 'attr' and r[1][0] == 'name')
+    return False
 
 
 def pack_args(t):
     """(positional arguments incl. the format, keyword arguments) of a packing call"""
     if t[0] == 'call':
         return tuple(t[2]), t[3]
-    return tuple(strip_res(t[1])[2]) + tuple(t[3]), tuple(strip_res(t[1])[3]) + tuple(t[4])
+    r = strip_res(t[1])
+    if r[0] == 'call' and r[1] == 'struct.Struct':
+        return tuple(r[2]) + tuple(t[3]), tuple(r[3]) + tuple(t[4])
+    return (('attr', r, 'format'),) + tuple(t[3]), tuple(t[4])
 
 
 def feasible(ev, path, syms, what):
@@ -382,20 +428,26 @@ def check_include_bytes(rep, model):
     reach = sorted(pv.reach('assemble'))
     # the functions that handle IncludeBytes items and everything they call
     handlers = set()
-    for u in model.users('IncludeBytes'):
-        handlers |= pv.reach(u)
+    for u in model.users('IncludeBytes') + [q for q in cg.funcs if q.split('.')[0] in facts.mro('IncludeBytes')]:
+        handlers |= pv.reach(u, dynamic=False)
     n = 0
+    unclear = []
     for q, node, name, arg in pv.sinks(reach):
         if q in handlers or name == 'os.path.getsize':
             n += 1
             ks = set(pv.kinds(arg, q)) - {'NoneK'}
-            if ks and not ks & {'RawToken', 'Literal', 'UserGiven', 'Dir', 'AdjDir', 'CwdDir'} and ks != {'Resolved'}:
-                raise AnalysisError('{}: the path given to {}({}) could not be classified ({})'.format(q, name, unparse(arg), sorted(ks)))
+            # a violation is text of the source line (or a literal) reaching the filesystem; any other mixture of kinds is an
+            # imprecision of the (field-name based, context-insensitive) dataflow: no verdict
+            if ks != {'Resolved'} and not ks & {'RawToken', 'Literal'}:
+                unclear.append('{}: the path given to {}({}) could not be classified ({})'.format(q, name, unparse(arg), sorted(ks)))
+                continue
             rep.check(ks == {'Resolved'}, 'R10.5.provenance', '{}: {}({}) uses the path the include search returned'.format(q, name, unparse(arg)),
                       lambda q=q, node=node, name=name, arg=arg, ks=ks: Finding('R10.5.provenance', q, node,
                                                                                 'include_bytes: {}({}) is given a {} path; size and content must both come from the file the include search found'.format(
                                                                                     name, unparse(arg), coarse(ks)), line=node.lineno))
     rep.analysed['include_bytes filesystem sites'] = n
+    if unclear and not rep.findings:
+        raise AnalysisError(unclear[0])
     # the size the labels were computed from
     msize = model.method('IncludeBytes', 'size')
     size_attrs = set()
@@ -425,19 +477,21 @@ def check_include_bytes(rep, model):
         onode = next((e[2] for e in p.events if e[0] == 'with' and strip_res(e[1]) == o), node)
         rep.check(is_const(mode) and isinstance(mode[1], str) and 'b' in mode[1] and 'r' in mode[1] and '+' not in mode[1], 'R10.5.binary', '{}: include_bytes reads in binary mode'.format(fname),
                   lambda mode=mode, node=onode, fname=fname: Finding('R10.5.binary', fname, node, 'the file is opened with mode {}: content is decoded / newline-translated'.format(show(mode)), line=getattr(node, 'lineno', None)))
-        length, size = ('call', 'len', (data,), ()), ('attr', x, size_attr)
+        length, size = ('call', 'len', (normalise(facts, data),), ()), ('attr', x, size_attr)
         tests = [(ev[1], True) for ev in p.events if ev[0] == 'assert'] + [(t, pol) for t, pol, _ in p.conds]
         guarded, unclear = False, None
         for t, pol in tests:
+            t = normalise(facts, t)
             if not (t[0] == 'cmp' and ((t[1] == '==' and pol) or (t[1] == '!=' and not pol))):
                 continue
-            sides = [strip_res(t[2]), strip_res(t[3])]
-            if length in sides:
-                other = sides[1 - sides.index(length)]
-                if other == size:
-                    guarded = True
-                elif find_all(other, lambda u: u[0] in ('mcall', 'callv') or (u[0] == 'call' and u[1] not in ('len', 'int', 'abs', 'min', 'max'))):
-                    unclear = other
+            sides = [t[2], t[3]]
+            for mine, wanted in ((length, size), (size, length)):
+                if mine in sides:
+                    other = sides[1 - sides.index(mine)]
+                    if other == wanted:
+                        guarded = True
+                    elif find_all(other, lambda u: u[0] in ('mcall', 'callv', 'new') or (u[0] == 'call' and u[1] not in ('len', 'int', 'abs', 'min', 'max'))):
+                        unclear = other
         if not guarded and unclear is not None:
             raise AnalysisError('{}: the content length is compared with {}, which is not understood'.format(fname, show(unclear)[:80]))
         rep.check(guarded, 'R10.5.size-check', '{}: content length is checked against the size the labels were computed from'.format(fname),
